@@ -67,11 +67,13 @@ type analysis struct {
 	sites       map[string]string // file:line of a Lock call or of a call into a cache -> class / cache qualifier
 	classes     map[string]bool
 	lockedCalls map[lockedCall]bool
+	tokenTakes  map[[2]string]bool // (function, "true"/"false": the receive is one arm of a select with a ctx.Done() arm)
+	inCtxSelect bool
 }
 
 func newAnalysis() *analysis {
 	return &analysis{edges: map[edge]edgeWit{}, accesses: map[string]access{}, unrecs: map[unrec]bool{}, leaks: map[string]bool{},
-		memo: map[string][]*state{}, active: map[string]bool{}, reached: map[string]bool{}, rootSeen: map[string]bool{}, sites: map[string]string{}, classes: map[string]bool{}, lockedCalls: map[lockedCall]bool{}}
+		memo: map[string][]*state{}, active: map[string]bool{}, reached: map[string]bool{}, rootSeen: map[string]bool{}, sites: map[string]string{}, classes: map[string]bool{}, lockedCalls: map[lockedCall]bool{}, tokenTakes: map[[2]string]bool{}}
 }
 
 func (a *analysis) unrecognised(p token.Pos, what string) { a.unrecs[unrec{pos(p), what}] = true }
@@ -125,22 +127,28 @@ func (a *analysis) run() {
 	a.checkSlots()
 }
 
-// checkSlots: every closure given as PruneFn/PrunePreFn/PrunePostFn must be named by the hand-written slot table and vice versa
+// checkSlots: every cache field has a derived binding, every callback closure is bound, nothing was left undecided
 func (a *analysis) checkSlots() {
+	for _, p := range slotProblems {
+		a.unrecs[unrec{"slot table", p}] = true
+	}
 	used := map[string]bool{}
-	for _, m := range slotTable {
-		for _, t := range m {
-			if t != "" {
-				used[t] = true
-				if decls[t] == nil {
-					a.unrecs[unrec{"slot table", "no closure " + t}] = true
-				}
+	for c, m := range slotTable {
+		for s, t := range m {
+			used[t] = true
+			if t == "?" {
+				a.unrecs[unrec{"slot table", "slot " + s + " of " + c + " is not a function literal"}] = true
 			}
 		}
 	}
+	for _, cf := range cacheFields {
+		if slotTable[cf] == nil {
+			a.unrecs[unrec{"slot table", "no cache.New found for " + cf}] = true
+		}
+	}
 	for n, f := range decls {
-		if f.parent != nil && (strings.HasSuffix(n, "$PruneFn") || strings.HasSuffix(n, "$PrunePreFn") || strings.HasSuffix(n, "$PrunePostFn")) && !used[n] {
-			a.unrecs[unrec{pos(f.body.Pos()), "cache callback " + n + " is not bound by the slot table"}] = true
+		if f.parent != nil && isSlotClosure(n) && !used[n] {
+			a.unrecs[unrec{pos(f.body.Pos()), "cache callback " + n + " is not bound to a cache class"}] = true
 		}
 	}
 }
@@ -539,7 +547,17 @@ func (a *analysis) stmt0(fr *frame, st *state, s ast.Stmt) []*state {
 		return sts
 	case *ast.ReturnStmt:
 		sts := a.exprs(fr, []*state{st}, x.Results)
+		_, passThrough := ast.Expr(nil), false
+		if len(x.Results) == 1 {
+			_, passThrough = x.Results[0].(*ast.CallExpr) // return f(...): the callee's results are the results
+		}
 		for _, o := range sts {
+			if passThrough {
+				if !lastResultIsError(fr.c.f) {
+					o.ret = 0
+				}
+				continue
+			}
 			o.ret, o.retT = 0, ""
 			if n := len(x.Results); n > 0 && lastResultIsError(fr.c.f) {
 				o.ret = errNil(o, x.Results[n-1])
@@ -692,6 +710,20 @@ func (a *analysis) selectStmt(fr *frame, st *state, x *ast.SelectStmt) []*state 
 	var out []*state
 	savedBreaks := fr.breaks
 	fr.breaks = nil
+	savedSel := a.inCtxSelect
+	a.inCtxSelect = false
+	for _, cl := range x.Body.List {
+		if es, ok := cl.(*ast.CommClause).Comm.(*ast.ExprStmt); ok {
+			if u, ok := es.X.(*ast.UnaryExpr); ok && u.Op == token.ARROW {
+				if ce, ok := u.X.(*ast.CallExpr); ok {
+					if sel, ok := ce.Fun.(*ast.SelectorExpr); ok && sel.Sel.Name == "Done" && info.TypeOf(sel.X) != nil && info.TypeOf(sel.X).String() == "context.Context" {
+						a.inCtxSelect = true
+					}
+				}
+			}
+		}
+	}
+	defer func() { a.inCtxSelect = savedSel }()
 	for _, cl := range x.Body.List {
 		cc := cl.(*ast.CommClause)
 		s := st.clone()
@@ -732,6 +764,7 @@ func (a *analysis) chanOp(fr *frame, st *state, ch ast.Expr, send, blocking bool
 				st.release(class) // the initial fill in RepoGet puts a token nobody holds
 			} else {
 				a.acquire(fr, st, class, p, true)
+				a.tokenTakes[[2]string{fr.c.f.name, fmt.Sprint(a.inCtxSelect && blocking)}] = true
 			}
 			return
 		}
